@@ -22,7 +22,9 @@ LEVEL = "exploration"
 WORKERS = {"quick": 8, "thorough": 16}
 BUDGET_S = {"quick": 55, "thorough": 650}
 RULE = (
-    "Status half: Hypothesis draws 1-3 trees over a small shared content pool plus loose files (all held by "
+    "Status half: Hypothesis draws 1-3 trees over a small shared content pool plus loose files and, in about 1 "
+    "case of 4, an EMPTY directory (staged without files: the '[]' listing object, which lists nothing; drawn into "
+    "A / B and into the query) (all held by "
     "a full cache store), two subject stores A and B (LocalHashFileDB / HashFileDB on the local fs) filled "
     "with drawn closed subsets, extra single files, then drawn objects removed again (so contents need not be "
     "closed) and - for LocalHashFileDB - drawn objects made writable (intact but unprotected); optionally a "
@@ -39,7 +41,10 @@ RULE = (
     "actually ran is observed by spying on list_oids_exists/_list_oids_traverse and reported as a class. "
     "Non-trivial = >= 2 queried ids of which at least one exists and one is missing in A. "
     "Index half: a rule-based history (<= 12 steps) over 1-3 remotes (either class, all configured with the "
-    "same tmp_dir), a full cache and one persistent ObjectDBIndex per remote obtained from get_index(remote); "
+    "same tmp_dir), a full cache (2-4 trees, loose files and, in two worlds of five, one EMPTY directory whose "
+    "'[]' object is pushed / fetched / queried / deleted like every other directory object - it lists no files, so "
+    "nothing but its own presence in the remote vouches for it) and one persistent ObjectDBIndex per remote "
+    "obtained from get_index(remote); "
     "every step addresses a drawn remote (usually the one of the previous step) and every invariant is "
     "evaluated per (remote, its own index) for ALL remotes after every step, so nothing delivered to or "
     "indexed for one remote may surface in another's index or answers: push(closed request: directories with all their "
@@ -88,6 +93,10 @@ ASSUMPTIONS = [
     "and only the index gains of the failing push itself are judged by content; a call that raises "
     "ObjectFormatError because the remote holds such a half-written .dir object is a refusal, not a violation",
     "a fetch is issued closed and shallow with cache_odb holding the directory objects, as index.fetch does",
+    "an empty directory is an ordinary subject: build() of a directory without files yields the '[]' listing "
+    "object (d751713988987e9331980363e24189ce.dir for md5), transfers and status queries treat it as a directory "
+    "object with no entries; every clause about directory objects applies to it unchanged (no clause is special-"
+    "cased); the 'directory minus files' shape of the status half only picks directories that have files",
     "an interrupted index update is modelled at transaction granularity (sqlite commits are atomic): the call "
     "dies on entering its n-th ObjectDBIndex write transaction; index.clear() is not interrupted",
 ]
